@@ -1,8 +1,13 @@
 """
-C18 — path canonicalisation.  Proof: Sqfs/Props/C18.lean (model = component-level specification, for all
-strings).  Tie: the real canonicalize_name.c / filename_sane.c from the working tree, under ASan+UBSan, on the
-same inputs as the native model driver: exhaustive over {'/', '.', 'a', 0xC3} up to length 8 (quick) / 10
-(thorough) plus random long strings; plus tool-level funnel probes.
+C18 — path canonicalisation.  Proof: Sqfs/Props/C18.lean (functional model = component-level specification, for
+all strings; in-place memory model = functional model, for all NUL-free strings and any bytes behind them).
+Tie (unit): the real canonicalize_name.c / filename_sane.c from the working tree, under ASan+UBSan, on the same
+script as the native model driver: exhaustive over {'/', '.', 'a', 0xC3} up to length 8 (quick) / 10 (thorough)
+plus random long strings; per input the result, the sanity verdict and the *whole array* after the call
+(`canonmem`, compared with the in-place model byte for byte); the property's clauses are evaluated on the
+implementation's own answers.
+Tie (funnel): every call of the two functions found in the clang AST (checks/c18_ast.py) is driven through its
+tool or library entry with inputs from the model's reject and accept sets (checks/c18_funnel.py).
 """
 import collections, itertools, json, os, subprocess
 import vlib
@@ -12,9 +17,10 @@ LEVEL = "proof"
 MODULE = "Sqfs.Props.C18"
 REQUIRED = ["Sqfs.C18.canon_eq_spec", "Sqfs.C18.canon_fails_iff_dotdot", "Sqfs.C18.canon_same_entry_and_clean",
             "Sqfs.C18.canon_length_le", "Sqfs.C18.canon_idempotent", "Sqfs.C18.sane_iff",
-            "Sqfs.C18.norm_dst_le_src", "Sqfs.C18.canon_dst_le_src"]
+            "Sqfs.C18.norm_dst_le_src", "Sqfs.C18.canon_dst_le_src",
+            "Sqfs.C18.canon_inplace_memory", "Sqfs.C18.canon_inplace_eq_model"]
 ALPHA = [0x2f, 0x2e, 0x61, 0xc3]
-TRUSTED = ["C strings are modelled as their bytes before the NUL; in-place rewriting is modelled as read-original/emit-output (dst <= src lemmas norm_dst_le_src, canon_dst_le_src)",
+TRUSTED = ["C strings are modelled as their bytes before the NUL; the in-place rewriting is modelled twice: functionally (read original / emit output) and as C statements over one byte array (Model/C18InPlace.lean); canon_inplace_memory proves the two equal, and the whole array after the call is compared with the real code on every run",
            "modelled: lib/util/src/canonicalize_name.c, lib/util/src/filename_sane.c (POSIX branch); the call sites that funnel names through them are enumerated from the clang AST and probed behaviourally, not proved",
            "funnel probes: clang 14 AST dump; tools/sqfs_forge.py (hostile images); tools/checks/c18_sqfsls.py (independent read-back of stored names)"]
 ASSUMPTIONS = []
@@ -55,6 +61,29 @@ def clause_failures(s, res, res2):
         bad.append("never-grows")
     if res2 != "n/a" and res2 != res:
         bad.append("idempotent")
+    return bad
+
+
+# bytes placed behind the string's terminator for the `canonmem` op (whole array compared with the in-place model)
+TAILS = [b"", b"\xa5", b"/..", b"\x00./", b"a/\x00b", b"\xff" * 8]
+K = 3        # script lines per input: canon, sane, canonmem
+
+
+def memory_clause_failures(s, tail, res, line):
+    """canon_inplace_memory evaluated on the implementation's own array: result, terminator, then (after whatever
+    is left of the old contents) the bytes behind the old terminator untouched; array length unchanged"""
+    if res is None:
+        return [] if line == "fail" else ["memory:fail-mismatch"]
+    if not line.startswith("ok "):
+        return ["memory:protocol"]
+    mem = untok(line[3:])
+    bad = []
+    if len(mem) != len(s) + 1 + len(tail):
+        bad.append("memory:length")
+    if mem[:len(res)] != res or mem[len(res):len(res) + 1] != b"\0":
+        bad.append("memory:result-and-terminator")
+    if mem[len(s) + 1:] != tail:
+        bad.append("memory:bytes-behind-terminator")
     return bad
 
 
@@ -122,9 +151,10 @@ def unit_correspondence(ctx):
     if nexh < 4 ** 8 or nrand <= 0:
         raise vlib.CheckFailure("C18: generator produced %d exhaustive and %d random inputs" % (nexh, nrand))
     lines = []
-    for s in inputs:
+    for i, s in enumerate(inputs):
         lines.append("canon " + tok(s))
         lines.append("sane " + tok(s))
+        lines.append("canonmem %s %s" % (tok(s), tok(TAILS[i % len(TAILS)])))
     impl, model, crash = run_pair(ctx, harness, lines)
     if crash:
         k, rc, err = crash
@@ -132,7 +162,7 @@ def unit_correspondence(ctx):
                       {"line": lines[min(k, len(lines) - 1)], "input_hex": lines[min(k, len(lines) - 1)].split()[1], "stderr": err})
         return None
     # second pass for idempotence on the implementation's own outputs
-    results = [parse_canon(impl[2 * i]) for i in range(len(inputs))]
+    results = [parse_canon(impl[K * i]) for i in range(len(inputs))]
     uniq_out = sorted({r for r in results if isinstance(r, bytes)})
     if not uniq_out:
         raise vlib.CheckFailure("C18: the implementation accepted none of %d inputs - the idempotence pass would be empty" % len(inputs))
@@ -162,33 +192,29 @@ def unit_correspondence(ctx):
             raise vlib.CheckFailure("C18: no second-pass answer for %r" % res)
         res2 = again[res] if res is not None else "n/a"
         bad = clause_failures(s, res, res2)
-        sane_impl = impl[2 * i + 1]
+        sane_impl = impl[K * i + 1]
         if sane_impl not in ("0", "1") or (sane_impl == "1") != sane_spec(s):
             bad.append("sane-iff")
-        diff = (impl[2 * i] != model[2 * i]) or (impl[2 * i + 1] != model[2 * i + 1])
+        bad += memory_clause_failures(s, TAILS[i % len(TAILS)], res, impl[K * i + 2])
+        diff = any(impl[K * i + j] != model[K * i + j] for j in range(K))
         if res is None or res != s:
             nontrivial.add(s)
         if bad:
             clause_bad += 1
             if clause_bad <= 5:
                 ctx.violation("input:" + tok(s), "canonicalize_name/is_filename_sane violate clause(s) %s on input %r: impl=%s model=%s" % (
-                    bad, s, impl[2 * i], model[2 * i]), {"input_hex": tok(s), "impl": [impl[2 * i], impl[2 * i + 1]],
-                                                        "model": [model[2 * i], model[2 * i + 1]], "clauses": bad})
+                    bad, s, impl[K * i], model[K * i]), {"input_hex": tok(s), "impl": impl[K * i:K * i + K],
+                                                        "model": model[K * i:K * i + K], "clauses": bad})
         elif diff:
             mism += 1
             if mism <= 5:
                 # cannot happen while canon_eq_spec holds (model = spec and impl meets every clause => impl = spec)
-                ctx.violation("corr:" + tok(s), "correspondence broke on %r (impl=%s model=%s) but no clause fails" % (s, impl[2 * i], model[2 * i]),
+                ctx.violation("corr:" + tok(s), "correspondence broke on %r (impl=%s model=%s) but no clause fails" % (s, impl[K * i:K * i + K], model[K * i:K * i + K]),
                               {"input_hex": tok(s), "correspondence": "harness/h_c18.c vs Driver/C18.lean"}, found_input=False)
-    trace = inplace_trace(ctx, inputs, ncorpus)
-    return {"evaluations": len(lines) + len(lines2) + trace["evaluations"], "nontrivial": len(nontrivial), "nexh": nexh, "ncorpus": ncorpus, "nrand": nrand,
-            "mism": mism + trace["mismatches"], "clause_bad": clause_bad, "second_pass": len(lines2), "inplace_trace": trace,
-            "samples": [{"input": repr(inputs[i]), "impl": impl[2 * i], "model": model[2 * i]} for i in
+    return {"evaluations": len(lines) + len(lines2), "nontrivial": len(nontrivial), "nexh": nexh, "ncorpus": ncorpus, "nrand": nrand,
+            "mism": mism, "clause_bad": clause_bad, "second_pass": len(lines2),
+            "samples": [{"input": repr(inputs[i]), "impl": impl[K * i], "model": model[K * i], "impl_memory": impl[K * i + 2][:80]} for i in
                         [ncorpus + 7, ncorpus + 333, ncorpus + 4242, len(inputs) - 1] if i < len(inputs)]}
-
-
-def inplace_trace(ctx, inputs, ncorpus):
-    return {"evaluations": 0, "mismatches": 0}
 
 
 def funnel(ctx):
@@ -258,7 +284,6 @@ def run(ctx):
             "samples": unit["samples"],
             "disagreements_checked": unit["mism"] + unit["clause_bad"],
             "idempotence_second_pass_inputs": unit["second_pass"],
-            "inplace_trace": unit["inplace_trace"],
         })
     ctx.cov["funnel"] = fun
     return ctx.finish(LEVEL, trusted_extra=TRUSTED, assumptions=ASSUMPTIONS)
@@ -279,7 +304,7 @@ def replay(ctx, path):
             print("%s %s input=%r expected=%r observed=%r ok=%s" % (e.probe, e.kind, e.inp, e.expected, e.observed, e.ok))
         return 1 if bad or not evs else 0
     harness = ctx.cc("h_c18", ["h_c18.c", "lib/util/src/canonicalize_name.c", "lib/util/src/filename_sane.c"])
-    lines = ["canon " + rp["input_hex"], "sane " + rp["input_hex"]]
+    lines = ["canon " + rp["input_hex"], "sane " + rp["input_hex"]] + ["canonmem %s %s" % (rp["input_hex"], tok(t)) for t in TAILS]
     impl, model, crash = run_pair(ctx, harness, lines)
     print("input :", untok(rp["input_hex"]))
     print("impl  :", impl, "crash:", crash)
@@ -289,5 +314,10 @@ def replay(ctx, path):
     bad = clause_failures(s, res, "n/a") if not isinstance(res, str) else ["crash"]
     if len(impl) > 1 and ((impl[1] == "1") != sane_spec(s)):
         bad.append("sane-iff")
-    print("clauses violated:", bad)
-    return 1 if bad or crash else 0
+    if not isinstance(res, str):
+        for j, t in enumerate(TAILS):
+            if len(impl) > 2 + j:
+                bad += memory_clause_failures(s, t, res, impl[2 + j])
+    differ = bool(impl and model and impl != model)
+    print("clauses violated:", bad, "| model and code differ:", differ)
+    return 1 if bad or crash or differ else 0
